@@ -196,6 +196,14 @@ class Contract:
                 elif f == "locals":
                     for k, v in kw.items():
                         self.local_kinds[k] = parse_kind(v, kenv)
+                elif f == "closure":
+                    # closure(name=Kind, ...): variables of the enclosing function that a nested function under contract
+                    # reads; the nested body is verified for arbitrary values of these kinds, a call binds them to the
+                    # enclosing function's values at the time of the call (Python's late binding)
+                    if not hasattr(self, "closure_kinds"):
+                        self.closure_kinds = {}
+                    for k, v in kw.items():
+                        self.closure_kinds[k] = parse_kind(v, kenv)
                 elif f == "trusted":
                     self.trusted = True
                     self.trusted_reason = c.args[0].value if c.args else ""
@@ -334,6 +342,12 @@ class Contract:
                 return outs
         bound = self.bind_args(pos, kw)
         env = dict(closure_env or {})   # a nested function's contract may mention the variables it closes over
+        for cn, ck in getattr(self, "closure_kinds", {}).items():
+            if cn not in env:
+                raise Unsupported(f"{self.fid}: closure variable {cn} is not bound at the call")
+            if not fits(env[cn], ck):
+                raise Unsupported(f"{self.fid}: closure variable {cn} of kind {env[cn].kind!r} does not fit {ck!r}")
+            env[cn] = unbox(box(env[cn], ck), ck)
         subst: dict = {}
         for n, k, d in self.params:
             if n in bound:
@@ -1194,6 +1208,21 @@ class Verifier(Engine):
 
             if not isinstance(k, KFn):
                 inputs[n] = (box(v, k), k)
+        for cn, ck in getattr(c, "closure_kinds", {}).items():
+            env[cn] = named(ck, f"c_{cn}")
+        if ".<locals>." in c.qualname:
+            # sibling nested functions that have their own contract are callable by that contract
+            outer_q = c.qualname.rsplit(".<locals>.", 1)[0]
+            outer = extract.find(c.module, outer_q)
+            if outer is not None:
+                for sib in outer.node.body:
+                    if isinstance(sib, ast.FunctionDef) and sib.name != fn.name:
+                        sc = self.registry.contracts.get(f"{c.module}.{outer_q}.<locals>.{sib.name}")
+                        if sc is not None:
+                            def _call(eng, st2, pos, kw, sc=sc):
+                                return sc.apply(eng, st2, pos, kw, None, closure_env=dict(st2.vars))
+
+                            env[sib.name] = FuncV(_call, sib.name)
         st = State(env)
         for wf in _dict_wellformed(list(env.values())):
             st = st.assume(wf)   # type invariant of Python dicts: keys are pairwise distinct
